@@ -97,6 +97,9 @@ def build(t):
 def to_impl_init(t, init):
     """reference initialiser -> the object handed to the real const()/Signal(init=)/ctx.set"""
     from amaranth.lib import data
+    if isinstance(init, tuple) and len(init) == 4 and init[0] == "hc":
+        from amaranth.hdl import Const as HC, Shape
+        return HC(init[1], Shape(init[2], init[3]))
     if isinstance(init, tuple) and len(init) == 2 and init[0] == "bits":
         if R.is_leaf(t):
             d = R.decode(t, init[1])
@@ -352,6 +355,68 @@ def leg_const(run, t, S, L):
                     g = ("exc", type(e).__name__)
                 if g != want:
                     run.v("const.build", f"wrap:{key!r}", f"const({init!r}).as_bits() = {g}, want {want}")
+    leg_const_hdlconst(run, t, S)
+
+
+def ones_init(x):
+    """an initialiser setting every bit of field x (None if that is not a valid pattern of an enumeration leaf)"""
+    if R.is_leaf(x) and R.decode(x, R.mask(R.width(x))) is R.INVALID:
+        return None
+    return ("bits", R.mask(R.width(x)))
+
+
+def leg_const_hdlconst(run, t, S):
+    """plain (non shape-castable) fields initialised with an hdl.Const of EVERY shape of width <= field width + 1 and
+    every value of that shape: Layout.const documents the result as a zeroed view with every field assigned in
+    order, i.e. the constant is extended by its own signedness / truncated to the field, never touching other bits.
+    The other fields are left alone, or all set to ones before, or all set to ones after (in layout order)."""
+    from amaranth.hdl import Signal
+    fs = R.fields(t)
+    is_union = t[0] in ("union", "ucls")
+    for key, x, off in fs:
+        if x[0] not in ("u", "s"):
+            continue
+        wx = R.width(x)
+        others = [(k2, ones_init(x2)) for k2, x2, _o in fs if k2 != key]
+        others = [(k2, v) for k2, v in others if v is not None]
+        modes = ["alone"] if (is_union or not others) else ["alone", "before", "after"]
+        for cw in range(0, wx + 2):
+            for csigned in (False, True):
+                if csigned and cw == 0:
+                    continue
+                lo = -(1 << (cw - 1)) if csigned else 0
+                for value in range(lo, lo + (1 << cw)):
+                    hc = ("hc", value, cw, csigned)
+                    if cw != wx:
+                        run.n("hdlconst_width_mismatch_inits")
+                    for mode in modes:
+                        if mode == "alone":
+                            init = {key: hc}
+                        elif mode == "before":
+                            init = dict(others)
+                            init[key] = hc
+                        else:
+                            init = {key: hc}
+                            init.update(others)
+                        run.n("evaluations", 2)
+                        run.n("const_inits")
+                        run.n("hdlconst_inits")
+                        want = R.encode(t, init)
+                        try:
+                            g = S.const(to_impl_init(t, init)).as_bits()
+                        except Exception as e:
+                            g = ("exc", type(e).__name__)
+                        if g != want:
+                            run.v("const.build", f"hdlconst:{key!r}:{mode}", f"const({init!r}).as_bits() = {g}, assigning "
+                                  f"Const({value}, {'signed' if csigned else 'unsigned'}({cw})) to the {wx}-bit field of a zeroed view gives {want}")
+                        try:
+                            with warnings.catch_warnings():
+                                warnings.simplefilter("ignore")
+                                g = Signal(S, init=to_impl_init(t, init)).as_value().init
+                        except Exception as e:
+                            g = ("exc", type(e).__name__)
+                        if g != want:
+                            run.v("const.signal_init", f"hdlconst:{key!r}:{mode}", f"Signal(layout, init={init!r}).as_value().init = {g}, want {want}")
 
 
 # ---------------------------------------------------------------- leg: view expressions / constant folding
@@ -993,7 +1058,9 @@ def run(rep):
     rep.setcov("exhaustive", True)
     rep.setcov("rule", "every layout term of vf/gen/c15_terms.py (struct/union <= %s leaf fields, arrays, flexible layouts with "
                "every offset pair, annotated Struct/Union classes with a default, nested to depth 2, size <= %d bits) x every "
-               "bit pattern of the underlying value x {placement, from_bits/as_bits, const(field-wise init in 2-3 forms) + "
+               "bit pattern of the underlying value x {placement, from_bits/as_bits, const(field-wise init in 2-3 forms) + every plain "
+               "field initialised with every hdl.Const of every shape of width <= field width + 1 (other fields untouched / all ones "
+               "before / all ones after; const() and Signal(init=)) + "
                "read-back + Signal init, View field shape/wrapper/constant folding, simulator ctx.get/ctx.set per field, comb "
                "copy through fields, comb assignment through each field (static and dynamic array index) for every field value}; "
                "write backgrounds are all patterns when patterns x field values <= budget, else {0, ones, 0x55, 0xAA} (counted in "
@@ -1014,7 +1081,8 @@ def run(rep):
     for key in ("patterns", "const_inits", "constfold", "sim_field_reads", "sim_negative_reads", "sim_enum_reads", "sim_nested_reads",
                 "sim_dynamic_reads", "sim_field_writes", "sim_dynamic_writes", "layouts_with_overlap", "layouts_with_gap",
                 "layouts_with_zero_width_field", "layouts_depth2", "enum_member_roundtrips", "flag_op_evaluations",
-                "negative_index_checks", "enum_raw_roundtrips", "placement_fields", "field_reads"):
+                "negative_index_checks", "enum_raw_roundtrips", "placement_fields", "field_reads", "hdlconst_inits",
+                "hdlconst_width_mismatch_inits"):
         rep.require(c.get(key, 0) > 0, f"antecedent never exercised: {key}")
 
 
